@@ -5,6 +5,7 @@ forecasting/base/_meta.py, online_learning/_online_ensemble.py).
 case = {"tree": node, "ops": [op, ...]}
   node = ["R", tag, a, b, c, d]                              recording leaf forecaster
        | ["E", agg, [[name, node], ...]]                     EnsembleForecaster (agg "online" = OnlineEnsembleForecaster)
+       | ["O", alg "nnls"|"hedge", wtag, [[name, node], ...]]   OnlineEnsembleForecaster with a weighting algorithm (root only)
        | ["P", [[tag, k, m, upd, skip], ...], node]          TransformedTargetForecaster (recording transformers)
        | ["M", sel|None, [[name, node], ...]]                MultiplexForecaster
        | ["S", [[name, node], ...], [tag, p, q]]             StackingForecaster (recording meta-regressor)
@@ -55,11 +56,15 @@ OBLIGATIONS = [
     "SkVerif.C09.combined_entry_points_are_fit_free",
     "SkVerif.C09.ensemble_setCutoff_members",
     "SkVerif.C09.member_receives_its_own_update_predict",
+    "SkVerif.C09.online_predict_eq_weighted_sum",
 ]
 TRUSTED = ["hand-written model SkVerif/Model/Compose.lean of the four composites and of the _SktimeForecaster bookkeeping they call",
            "harness/recorders_C09.py (recording leaves; their Lean twins recF/recT/recG are part of the model)",
            "SingleWindowSplitter is the C01 model (Model/Split.lean)"]
-ASSUMPTIONS = ["integer labels, relative integer horizons, no prediction intervals",
+ASSUMPTIONS = ["the arithmetic of the online ensemble's weighting algorithms (NNLS, NormalHedge root finding) is a library black box: "
+               "the weights the real algorithm holds after each of its updates are fed back to the model as data (tapeWeigher); theorems hold for every algorithm; "
+               "online ensembles with an algorithm are exercised at the root of a composition only",
+               "integer labels, relative integer horizons, no prediction intervals",
                "the dtype of the series (float64/float32/int64/int32) and the presence/dtype of an exogenous frame are varied on the real side only: "
                "the parts must be handed the same numbers whatever the dtype; what happens to the CONTENT of exogenous data is not modelled "
                "(recording leaves ignore it; StackingForecaster.fit rejects it)",
@@ -91,6 +96,9 @@ AGGS = ["mean", "median", "min", "max", "online"]
 # /repo commit 8cf3d7f); "P" = the model of the ORIGINAL update (raw batch handed on).  C09_MODEL_ORIGINAL=1 is
 # only for looking at the original behaviour in a scratch worktree.
 import os as _os
+# "O" = OnlineEnsembleForecaster.update as coded (the algorithm is shown forecasts made AFTER the members' cutoffs were moved:
+# known finding); "Of" = the proposed repair (findings/C09-online-update-learns-before-moving-cutoff.patch).
+_ONLINE_TOKEN = "Of" if _os.environ.get("C09_ONLINE_FIXED") == "1" else "O"
 _PIPE_TOKEN = "P" if _os.environ.get("C09_MODEL_ORIGINAL") == "1" else "Pf"
 
 
@@ -166,6 +174,9 @@ def build_real(node, root=True):
         if node[1] == "online":
             return OnlineEnsembleForecaster(ms)
         return EnsembleForecaster(ms, aggfunc=node[1])
+    if k == "O":
+        ms = [(n, build_real(ch, False)) for n, ch in node[3]]
+        return OnlineEnsembleForecaster(ms, ensemble_algorithm=R.make_algorithm(node[1], len(ms), node[2]))
     if k == "P":
         steps = [("s%d" % i, build_tr(t)) for i, t in enumerate(node[1])]
         return TransformedTargetForecaster(steps + [("f", build_real(node[2], False))])
@@ -299,8 +310,20 @@ def _num(x):
     return show_rat(float(x))
 
 
-def _node_str(n):
+_TAPES = {}    # canonical case text -> weights the real algorithm held after each of its updates (filled by run_real)
+
+
+def _case_key(c):
+    import json
+    return json.dumps(c, sort_keys=True)
+
+
+def _node_str(n, tape=None):
     k = n[0]
+    if k == "O":
+        tape = tape or []
+        return "%s %d %s %d %s" % (_ONLINE_TOKEN, len(tape), " ".join(",".join(show_rat(float(w)) for w in ws) for ws in tape), len(n[3]),
+                                  " ".join("%s %s" % (nm, _node_str(ch)) for nm, ch in n[3]))
     if k == "R":
         return "R %s %s %s %s %s" % (n[1], _num(n[2]), _num(n[3]), _num(n[4]), _num(n[5]))
     if k == "E":
@@ -343,7 +366,7 @@ def _remembered_fh(tree, ops):
 
 def _default_cv(tree, ops_before):
     """the splitter `update_predict(cv=None)` builds, spelled out (None: no horizon remembered -> the call fails)"""
-    if tree[0] == "E" and tree[1] == "online":
+    if tree[0] == "O" or (tree[0] == "E" and tree[1] == "online"):
         return ["s", 1, 1, True, [1]]
     f = _remembered_fh(tree, ops_before)
     return None if f is None else ["s", 10, 1, False, f]
@@ -378,7 +401,14 @@ def _op_str(op, tree=None, before=()):
 
 def to_line(c):
     ops = c["ops"]
-    return re.sub(r"\s+", " ", "C09 run %s | %s" % (_node_str(c["tree"]), " ".join(_op_str(o, c["tree"], ops[:j]) for j, o in enumerate(ops)))).strip()
+    tape = None
+    if c["tree"][0] == "O":
+        if _case_key(c) not in _TAPES:
+            run_real(c)
+        tape = _TAPES[_case_key(c)]
+        if tape is None:
+            return None   # the real algorithm failed or produced non-finite weights: nothing to replay in the model
+    return re.sub(r"\s+", " ", "C09 run %s | %s" % (_node_str(c["tree"], tape), " ".join(_op_str(o, c["tree"], ops[:j]) for j, o in enumerate(ops)))).strip()
 
 
 def run_real(c):
@@ -386,7 +416,13 @@ def run_real(c):
         obj = build_real(c["tree"])
     except Exception as e:  # constructors do not validate; anything here is a harness problem
         return "E:construct:" + canon_err(e)
+    import recorders_C09 as R
+    del R.TAPE[:]
     outs, logs, err = observe(obj, c["ops"])
+    if c["tree"][0] == "O":
+        tape = [w for _, w in R.TAPE]
+        ok = all(isinstance(w, list) and all(np.isfinite(x) for x in w) for w in tape)
+        _TAPES[_case_key(c)] = tape if ok else None
     o = [_out_str(x) for x in outs]
     if err is not None:
         return ";".join(o + [canon_err(err[1])])
@@ -508,6 +544,8 @@ def _tags(node):
     k = node[0]
     if k == "R":
         return {("F", node[1])}
+    if k == "O":
+        return set().union(*[_tags(ch) for _, ch in node[3]]) if node[3] else set()
     if k in ("E", "M"):
         return set().union(*[_tags(ch) for _, ch in node[2]]) if node[2] else set()
     if k == "P":
@@ -530,6 +568,8 @@ def _depth(node):
     k = node[0]
     if k == "R":
         return 0
+    if k == "O":
+        return 1 + max([_depth(ch) for _, ch in node[3]] or [0])
     if k in ("E", "M"):
         return 1 + max([_depth(ch) for _, ch in node[2]] or [0])
     if k == "P":
@@ -837,8 +877,57 @@ def _oracle_stack(node, ops, outs, logs):
     return fails
 
 
+def _oracle_online(node, ops, outs, logs):
+    """forecast = sum_i weight_i x (member i's forecast), for the weights the algorithm holds at that moment: the real
+    ensemble is run again; right before each forecast its fitted members are asked for their forecasts and the
+    algorithm's `weights` are read.  And: the algorithm learns from the members' forecasts for the labels of the new batch."""
+    import recorders_C09 as R
+    fails, seen = [], set()
+
+    def fail(key, msg):
+        if key not in seen:
+            seen.add(key)
+            fails.append((key, msg))
+
+    members = node[3]
+    obj = build_real(node)
+    with _capture():
+        for j, op in enumerate(ops[:len(outs)]):
+            cut_before = obj.cutoff
+            if op[0] in ("pred", "ups"):
+                if op[0] == "ups":
+                    obj.update(_S(op[1], _dt(op)), update_params=bool(op[2]))
+                fh = op[1] if op[0] == "pred" else op[3]
+                if fh is None:
+                    fh = [int(v) for v in obj.fh.to_relative(obj.cutoff).to_pandas()]
+                ms = [R.ser(f.predict(list(fh))) for f in obj.forecasters_]
+                w = [float(x) for x in obj.ensemble_algorithm.weights]
+                exp = [(ms[0][i][0], sum(wk * m[i][1] for wk, m in zip(w, ms))) for i in range(len(ms[0]))]
+                obj.predict(list(fh))
+                if not _ser_close(_flat(outs[j]), exp):
+                    fail("OnlineEnsembleForecaster.%s:not-the-weighted-sum-of-member-forecasts" % _SITE[op[0]],
+                         "call %d: got %s, weights %s x member forecasts %s = %s" % (j, outs[j], w, ms, exp))
+            else:
+                _apply(obj, op)
+            if op[0] in ("upd", "ups") and op[1]:
+                batch = [l for l, _ in op[1]]
+                if cut_before is None or batch != list(range(int(cut_before) + 1, int(cut_before) + 1 + len(batch))):
+                    continue    # only for batches that continue the series right after the cutoff
+                for nm, ch in members:
+                    if ch[0] != "R":
+                        continue
+                    asked = [e for e in logs[j] if e[0] == "F" and e[1] == ch[1] and e[2] == "predict"]
+                    if asked and [l for l, _ in asked[0][3]] != batch:
+                        fail("OnlineEnsembleForecaster.update:weights-learned-from-member-forecasts-for-other-labels",
+                             "call %d: the algorithm is shown member %s's forecasts for labels %s together with the observations at labels %s"
+                             % (j, nm, [l for l, _ in asked[0][3]], batch))
+    return fails
+
+
 def _oracle_node(node, ops, outs, logs):
     k = node[0]
+    if k == "O":
+        return _oracle_online(node, ops, outs, logs)
     if k == "E":
         return _oracle_ens(node, ops, outs, logs)
     if k == "M":
@@ -852,6 +941,8 @@ def _oracle_node(node, ops, outs, logs):
 
 def _children(node):
     k = node[0]
+    if k == "O":
+        return [ch for _, ch in node[3]]
     if k in ("E", "M"):
         return [ch for _, ch in node[2]]
     if k == "P":
@@ -889,7 +980,7 @@ def oracle(c, real_out):
             return list(_oracle_node(nd, ops_, o_, l_))
         except Exception as e:
             return [("%s:observation-not-a-composition-of-the-parts" % {"E": "EnsembleForecaster", "P": "TransformedTargetForecaster",
-                     "M": "MultiplexForecaster", "S": "StackingForecaster"}.get(nd[0], "leaf"), "%s: %s" % (type(e).__name__, e))]
+                     "M": "MultiplexForecaster", "S": "StackingForecaster", "O": "OnlineEnsembleForecaster"}.get(nd[0], "leaf"), "%s: %s" % (type(e).__name__, e))]
     fails = safe(c["tree"], ops, outs, logs)
     # every composite inside the tree is itself a composite of its parts: check each on the same history
     todo = list(_children(c["tree"]))
@@ -926,6 +1017,13 @@ def features(c, real_out):
         f.append("err=" + real_out.split(";")[-1])
     if c["tree"][0] == "E":
         f.append("agg=" + str(c["tree"][1]))
+    if c["tree"][0] == "O":
+        f.append("online-algorithm=" + c["tree"][1])
+        tape = _TAPES.get(_case_key(c))
+        if tape is None:
+            f.append("online-algorithm-failed-or-nonfinite(not sent to the model)")
+        elif any(abs(sum(w) - 1.0) > 1e-6 for w in tape):
+            f.append("online-weights-not-summing-to-1")
     for o in c["ops"]:
         if o[0] == "ups":
             f.append("entry=update_predict_single")
@@ -993,6 +1091,8 @@ def _retag(node, tg=None):
     k = node[0]
     if k == "R":
         return ["R", tg("f")] + list(node[2:])
+    if k == "O":
+        return ["O", node[1], tg("w"), [[nm, _retag(ch, tg)] for nm, ch in node[3]]]
     if k in ("E", "M"):
         return [k, node[1], [[nm, _retag(ch, tg)] for nm, ch in node[2]]]
     if k == "P":
@@ -1149,6 +1249,12 @@ def _small_scope():
     trees.append(["E", "mean", [["a", lm], ["b", lh], ["c", la]]])
     trees.append(["P", [["te", 0.5, 0.5, True, False]], lm])
     trees.append(["M", "b", [["a", la], ["b", lm]]])
+    # the online ensemble with each weighting algorithm (None is the "online" aggfunc above)
+    for alg in ("nnls", "hedge"):
+        trees.append(["O", alg, "w", [["a", la], ["b", lb]]])
+        trees.append(["O", alg, "w", [["a", la], ["b", lb], ["c", lc]]])
+        trees.append(["O", alg, "w", [["a", lm], ["b", lh], ["c", la]]])
+        trees.append(["O", alg, "w", [["a", pipe1], ["b", lb]]])
     u1, u2, u3 = [[11, 64.0], [12, 128.0]], [[13, -3.0]], [[10, 5.0], [11, 6.0]]
     hists = []
     for fh in ([1], [1, 2], [2, 3], [1, 3]):
@@ -1259,6 +1365,10 @@ def gen_cases(tier, rng):
         tg = _Tagger()
         depth = rng.choice([1, 1, 2, 2, 2, 3, 3])
         t = _tree(rng, depth, tg)
+        if rng.random() < 0.12:
+            # an online ensemble with a weighting algorithm at the root
+            k = rng.randint(2, 3)
+            t = ["O", rng.choice(["nnls", "hedge"]), tg("w"), [[tg("m"), _tree(rng, rng.choice([0, 0, max(depth - 1, 0)]), tg)] for _ in range(k)]]
         ops = _history(rng, _has_stack(t))
         dt = rng.choice(["f8", "f8", "i8", "f4", "i4"])
         dtu = rng.choice(_DTS) if rng.random() < 0.15 else dt
